@@ -1132,7 +1132,10 @@ def transform(fn, proceed, to_instrument=True, set_conformer=True):
     filename = inspect.getsourcefile(fn)
     tree = ast.parse(src, filename)
     tree = tree.body[0]
-    assert isinstance(tree, ast.FunctionDef)
+    if not isinstance(tree, ast.FunctionDef):
+        raise TypeError(
+            f"transform() only works on functions defined with def (got {fn})"
+        )
     tree.decorator_list = []
 
     fnsym = _gensym()
